@@ -220,6 +220,12 @@ def _run_all(sc, sim, knobs, np_seed, eager=False):
     return o, outs, stack
 
 
+def _reference_side(sc):
+    o_ref, ref, stack_ref = _run_all(sc, Sim(mode="sequential"), sc["knobs"], sc["np_seed_ref"])
+    ref_plain = [(st, (digest(v) if st == "ok" else v)) for st, v in ref]
+    return ref_plain, (stack_ref[0], np.asarray(stack_ref[1]) if stack_ref[0] == "ok" else stack_ref[1])
+
+
 class V(Exception):
     def __init__(self, kind, site, detail):
         super().__init__(detail)
@@ -309,8 +315,11 @@ def execute(sc):
     memberships = {}
     checked = 0
     try:
-        # reference: same layout + knobs, sequential, *different* ambient RNG state
-        o_ref, ref, stack_ref = _run_all(sc, ref_sim, sc["knobs"], sc["np_seed_ref"])
+        # reference: same layout + knobs, sequential, *different* ambient RNG state; in its own fork so that the simulated
+        # execution below starts from pristine process state (no caches warmed by the reference)
+        from simkit import runner
+
+        ref, stack_ref = runner.call_in_fork(_reference_side, sc)
         try:
             o, out, stack_o = _run_all(sc, sim, sc["knobs"], sc["np_seed"])
         except SimDeadlock as e:
@@ -331,7 +340,7 @@ def execute(sc):
             if st_s == "exc":
                 raise V("spurious-exception", sim.error_site or name, f"{name}: {v_s['type']}: {v_s['msg'][:200]}")
             # (7) schedule + ambient-RNG invariance, bitwise (same graph)
-            if digest(v_r) != digest(v_s):
+            if v_r != digest(v_s):
                 raise V("schedule-dependent-result", name, f"{name}: result differs from the sequential reference")
             checked += 1
             if name == "average":
@@ -374,7 +383,7 @@ def execute(sc):
                         import dask
 
                         with dask.config.set({"scheduler": Sim(mode="sequential").get}), W.knobs_ctx(sc["knobs"]):
-                            raw = o_ref.loader.average_split(n_set=op["n_set"], seed=op["seed"], squeeze=False)
+                            raw = o.loader.average_split(n_set=op["n_set"], seed=op["seed"], squeeze=False)
                         exp = raw - raw.mean()
                         got = np.stack([h0s, h1s], axis=1)
                         if max_abs_diff(got, exp) > 4 * _mean_tol(n, stack):
